@@ -160,6 +160,11 @@ def execute(plan, prop, out, tr):
 
     def alg(i, tag, sc=None):
         a = rng.randn(s, ("g", i, tag), bs + (md,), torch.float64, c["sigma"] if sc is None else sc)
+        z = rng.H(s, "zero", i, tag) % 23
+        if z == 0:
+            a = a * 0.0                         # the exact zero element (Exp at the origin, identity operand)
+        elif z == 1:
+            a[..., -3:] = 0.0                   # exact zero rotation (SO3/SE3) or zero rotation tail
         if has_s:
             a[..., -1] *= 0.3
         return a
